@@ -201,6 +201,27 @@ func runCheck(args []string) {
 	}
 	all = append(all, lemmaObls...)
 	e.solveAll(all, dir, to, runtime.NumCPU())
+	// Instability guard: an obligation left undecided (timeout/unknown, no counterexample) is
+	// tried once more with a much larger cap and little parallelism, so that machine load
+	// or solver luck does not turn into an alarm. A refuted obligation (sat) is never retried.
+	var retry []*Oblig
+	kfs0 := loadKnownFindings(filepath.Join(*root, "known_findings.txt"))
+	listed := func(id string) bool {
+		for _, k := range kfs0 {
+			if !k.fixed && k.prop == ps.ID && k.oblig == id {
+				return true
+			}
+		}
+		return false
+	}
+	for _, o := range all {
+		if !o.ok() && o.Result != "sat" && !listed(o.ID) {
+			retry = append(retry, o)
+		}
+	}
+	if len(retry) > 0 && len(retry) <= 24 {
+		e.solveAll(retry, dir, to*3, 8)
+	}
 
 	kfs := loadKnownFindings(filepath.Join(*root, "known_findings.txt"))
 	isKnown := func(id string) *knownFinding {
